@@ -607,14 +607,17 @@ def run(rep):
     quick = rep.tier == 'quick'
     cfgs = ['MC_Process_quick.cfg', 'MC_Process_quick2.cfg', 'MC_Process_quick3.cfg']
     if not quick:
-        cfgs += ['MC_Process_thorough.cfg', 'MC_Process_thorough2.cfg', 'MC_Process_thorough3.cfg']
+        cfgs += ['MC_Process_thorough.cfg', 'MC_Process_thorough2.cfg', 'MC_Process_thorough3.cfg',
+                 'MC_Process_thorough4.cfg']
     rep.rule = ('histories = all maximal behaviours of the bounded Process instances emitted by TLC that contain a '
                 'Main / Solve / SolveAgain (2 models, each declared in two parts so that other models are created in '
-                'between, x 2 blocks; 1 solver, length 5; 2 solvers, length 4; models only, length 6; thorough: also '
-                '1 solver length 6, 2 solvers length 5 with 3 trace settings, models only length 8); each executed in a child '
-                'process after the other histories of its batch (mode accumulated), a seeded sample also alone '
-                '(mode fresh); distinct = distinct (history, mode); non-trivial = some result is computed after '
-                'at least one action that is not part of computing it alone')
+                'between; 2 blocks sharing variable names; the user function registered per solver with one of 2 '
+                'bodies; instances: 1 solver length 5; 2 solvers length 4; models only length 6; thorough: also '
+                '1 solver length 6; 2 solvers without models length 5 with 3 trace settings; models only length 7 and, '
+                'untraced, length 8); '
+                'each executed in a child process after the other histories of its batch (mode accumulated), a '
+                'seeded sample also alone (mode fresh); distinct = distinct (history, mode); non-trivial = some '
+                'result is computed after at least one action that is not part of computing it alone')
     rep.exhaustive = True
     rep.assumptions = ['reference = the same model / block executed alone in a fresh subprocess (observed vs observed), '
                        'one run per distinct model / block',
